@@ -1,6 +1,6 @@
 //! C15 executor: applications assembled from a catalogue of 26 typed handlers (every IntoHandler shape) (fn items) under plain / JWT / BasicAuth / Tag fangs at any
 //! level; returns the generated OpenAPI document, and for every documented operation the outcome of a request built from it.
-//! App  = {"fangs": [Fang], "items": [Item]}      Fang = {"k": "plain" | "jwt" | "basic" | "tag", "id": int}
+//! App  = {"fangs": [Fang], "items": [Item]}      Fang = {"k": "plain" | "jwt" | "basic" | "basic2" | "key_header" | "key_query" | "key_cookie" | "tag", "id": int}
 //! Item = {"route": "/a/:x", "methods": {"GET": handler id, ..}, "local": [Fang]} | {"mount": "/api/:v", "app": App}
 #![allow(non_snake_case, dead_code)]
 use crate::util::*;
@@ -71,6 +71,29 @@ async fn h25((a, b): (String, u8), Query(q): Query<QueryB>, Query(d): Query<Quer
 struct Plain(i64);
 impl FangAction for Plain {}
 
+/// an API-key fang: the key `k15` is expected in the header `X-Key`, the query parameter `key` or the cookie `key`, and the fang documents
+/// exactly that (`SecurityScheme::APIKey(.., APIKey::header | query | cookie)`)
+#[derive(Clone)]
+struct KeyFang(&'static str);
+impl FangAction for KeyFang {
+    async fn fore<'a>(&'a self, req: &'a mut Request) -> Result<(), Response> {
+        let ok = match self.0 {
+            "header" => req.headers.get("X-Key") == Some("k15"),
+            "query" => req.query.iter().any(|(k, v)| k == "key" && v == "k15"),
+            _ => req.headers.Cookie().map(|c| c.split("; ").any(|kv| kv == "key=k15")).unwrap_or(false),
+        };
+        if ok { Ok(()) } else { Err(Response::Unauthorized()) }
+    }
+    fn openapi_map_operation(&self, operation: openapi::Operation) -> openapi::Operation {
+        use openapi::security::{SecurityScheme, APIKey};
+        match self.0 {
+            "header" => operation.security(SecurityScheme::APIKey("keyHeader", APIKey::header("X-Key")), &[]),
+            "query" => operation.security(SecurityScheme::APIKey("keyQuery", APIKey::query("key")), &[]),
+            _ => operation.security(SecurityScheme::APIKey("keyCookie", APIKey::cookie("key")), &[]),
+        }
+    }
+}
+
 const SECRET: &str = "c15-secret";
 fn jwt() -> JWT<Claims> { JWT::<Claims>::default(SECRET) }
 fn basic() -> BasicAuth<&'static str> { BasicAuth { username: "u", password: "p" } }
@@ -82,6 +105,9 @@ macro_rules! with_fang {
             "jwt" => { let $f = jwt(); $body }
             "basic" => { let $f = basic(); $body }
             "basic2" => { let $f = [basic(), BasicAuth { username: "u2", password: "p2" }]; $body }          // the array form of the fang
+            "key_header" => { let $f = KeyFang("header"); $body }
+            "key_query" => { let $f = KeyFang("query"); $body }
+            "key_cookie" => { let $f = KeyFang("cookie"); $body }
             "tag" => { let $f = openapi::Tag(leak(&format!("t{}", $s["id"].as_i64().unwrap_or(0)))); $body }
             k => panic!("harness: fang kind {k}"),
         }
@@ -149,13 +175,28 @@ fn build(app: &Value) -> Ohkami {
 }
 
 /// a request built from a documented operation: `{p}` -> "7", the documented query parameters, a body of the documented media type, the documented credentials
-fn probe(t: &TestingOhkami, template: &str, method: &str, op: &Value) -> Value {
+fn probe(t: &TestingOhkami, template: &str, method: &str, op: &Value, schemes: &Value) -> Value {
     let mut path = String::new();
     let mut in_brace = false;
     for ch in template.chars() { match ch { '{' => { in_brace = true; path.push('7') } '}' => in_brace = false, c if !in_brace => path.push(c), _ => {} } }
     let mut query = vec![];
     for p in op["parameters"].as_array().cloned().unwrap_or_default() {
         if p["in"] == "query" { query.push(format!("{}={}", p["name"].as_str().unwrap_or(""), if p["schema"]["type"] == "integer" { "1" } else { "x" })); }
+    }
+    // an API key goes where the document says: `in` and `name` of the scheme
+    let mut key_headers: Vec<(String, String)> = vec![];
+    for s in op["security"].as_array().cloned().unwrap_or_default() {
+        for name in s.as_object().map(|o| o.keys().cloned().collect::<Vec<_>>()).unwrap_or_default() {
+            let sch = &schemes[&name];
+            if sch["type"] == "apiKey" {
+                let n = sch["name"].as_str().unwrap_or("").to_string();
+                match sch["in"].as_str().unwrap_or("") {
+                    "query" => query.push(format!("{n}=k15")),
+                    "cookie" => key_headers.push(("Cookie".into(), format!("{n}=k15"))),
+                    _ => key_headers.push((n, "k15".into())),
+                }
+            }
+        }
     }
     if !query.is_empty() { path += "?"; path += &query.join("&"); }
     let p = leak(&path);
@@ -180,6 +221,7 @@ fn probe(t: &TestingOhkami, template: &str, method: &str, op: &Value) -> Value {
             };
         }
     }
+    for (k, v) in key_headers { req = req.header(leak(&k), v); }
     RAN.store(-1, Ordering::SeqCst);
     let status = rt().block_on(async { t.oneshot(req).await.status().code() });
     json!({"path": template, "method": method, "request": path, "status": status, "ran": RAN.load(Ordering::SeqCst)})
@@ -193,7 +235,7 @@ pub fn run_case(c: &Value) -> Value {
     let mut probes = vec![];
     if let Some(paths) = doc["paths"].as_object() {
         for (template, ops) in paths {
-            for (method, op) in ops.as_object().cloned().unwrap_or_default() { probes.push(probe(&t, template, &method, &op)); }
+            for (method, op) in ops.as_object().cloned().unwrap_or_default() { probes.push(probe(&t, template, &method, &op, &doc["components"]["securitySchemes"])); }
         }
     }
     json!({"outcome": "ok", "doc": doc, "probes": probes})
